@@ -403,3 +403,306 @@ Proof.
   apply andb_true_iff in H. destruct H as [Hc Hs]. destruct (utf8_enc1_scalar _ Hc) as [b ->].
   destruct (IH Hs) as [r ->]. eauto.
 Qed.
+
+(* ====================================================================== numbers: an integral number behaves as its integer
+   (whichever spelling: NInt z, or any NFlt whose exact value is z) *)
+Definition integral (n : num) (z : Z) : Prop := py_int n = Some z /\ num_eq (NInt z) n = true.
+
+Lemma pow2_pos : forall e, 0 <= e -> 0 < 2 ^ e.
+Proof. intros. apply Z.pow_pos_nonneg; lia. Qed.
+
+Lemma xcmp_integral : forall z x w, xcmp (XDy z 0) x = Some Eq -> xcmp x (XDy w 0) = Some (z ?= w).
+Proof.
+  intros z x w H. destruct x as [|s|m ee]; simpl in H; try discriminate; [destruct s; discriminate|].
+  unfold xcmp in *. f_equal. injection H as H1.
+  rewrite (Z.min_comm ee 0).
+  set (k := Z.min 0 ee) in *. assert (Hk : k <= 0 /\ k <= ee) by (unfold k; lia).
+  replace (0 - k) with (- k) in * by lia.
+  apply Z.compare_eq in H1.
+  pose proof (pow2_pos (- k) ltac:(lia)) as P.
+  destruct (z ?= w) eqn:C.
+  - apply Z.compare_eq in C. subst. rewrite H1. apply Z.compare_refl.
+  - apply Z.compare_lt_iff in C. apply Z.compare_lt_iff. rewrite <- H1. apply Z.mul_lt_mono_pos_r; auto.
+  - apply Z.compare_gt_iff in C. apply Z.compare_gt_iff. rewrite <- H1. apply Z.mul_lt_mono_pos_r; auto.
+Qed.
+
+Lemma num_cmp_integral : forall n z w, integral n z -> num_cmp n (NInt w) = Some (z ?= w).
+Proof.
+  intros n z w [_ H]. unfold num_eq, num_cmp in *. simpl num_x in *.
+  apply xcmp_integral. destruct (xcmp (XDy z 0) (num_x n)) as [[]|]; congruence.
+Qed.
+
+Lemma num_ge_integral : forall n z w, integral n z -> num_ge n (NInt w) = (w <=? z).
+Proof. intros. unfold num_ge. rewrite (num_cmp_integral _ _ w H). destruct (Z.compare_spec z w); lia. Qed.
+Lemma num_gt_integral : forall n z w, integral n z -> num_gt n (NInt w) = (w <? z).
+Proof. intros. unfold num_gt. rewrite (num_cmp_integral _ _ w H). destruct (Z.compare_spec z w); lia. Qed.
+Lemma num_lt_integral : forall n z w, integral n z -> num_lt n (NInt w) = (z <? w).
+Proof. intros. unfold num_lt. rewrite (num_cmp_integral _ _ w H). destruct (Z.compare_spec z w); lia. Qed.
+
+Lemma integral_int : forall z, integral (NInt z) z.
+Proof. intros. split; [reflexivity|]. unfold num_eq, num_cmp. simpl. rewrite Z.compare_refl. reflexivity. Qed.
+
+(* an `integer: True, gte: 0` argument (every index / count / size of the functions modelled here) *)
+Definition index_spec (sp : argspec) : Prop :=
+  as_integer sp = true /\ as_lt sp = None /\ as_lte sp = None /\ as_gt sp = None /\ as_gte sp = Some (LInt 0).
+Lemma number_fails_index : forall sp n z, index_spec sp -> integral n z -> number_fails sp n = Some (z <? 0).
+Proof.
+  intros sp n z (I & A & B & C & D) H. unfold number_fails. rewrite I, A, B, C, D. destruct H as [P E]. rewrite P, E.
+  simpl. rewrite (num_ge_integral n z 0 (conj P E)). f_equal. lia.
+Qed.
+
+Lemma index_guard_integral : forall n z k, integral n z ->
+  index_guard (VNum n) k = if Z.of_nat k <=? z then Some None else Some (Some z).
+Proof. intros n z k H. unfold index_guard. simpl. rewrite (num_ge_integral _ _ _ H). destruct H as [-> _]. reflexivity. Qed.
+
+(* ====================================================================== refinement to the pure list / map specification
+   Each theorem runs the WHOLE call (generic validation over the generated table, guards, int() conversions) and states
+   the result in terms of plain list / association-list operations.  Indices are any number whose exact value is the
+   integer z (`integral n z`): the int spelling and every float spelling alike. *)
+Ltac open_lib name :=
+  unfold lib;
+  let r := eval vm_compute in (assoc name raw_table) in
+  change (assoc name raw_table) with r; cbv beta iota;
+  unfold validated;
+  let sp := eval vm_compute in (assoc_spec name gen_arg_specs) in
+  change (assoc_spec name gen_arg_specs) with sp; cbv beta iota.
+Ltac table_entry name k :=
+  change (assoc name lib_table) with (Some k); cbv beta iota.
+Ltac validate_step := cbn [args_validate as_last as_default as_type as_nullable type_ok negb as_num vcons lit_value].
+Ltac idx n z H := rewrite (number_fails_index _ n z); [ | repeat split; reflexivity | exact H ].
+
+Lemma nth_error_in_range : forall {A} (xs : list A) z, 0 <= z < len xs -> exists v, nth_error xs (Z.to_nat z) = Some v.
+Proof.
+  unfold len. intros A xs z H. destruct (nth_error xs (Z.to_nat z)) eqn:E; eauto.
+  apply nth_error_None in E. lia.
+Qed.
+
+Lemma py_index_in_range : forall k z, 0 <= z < Z.of_nat k -> py_index k z = Some (Z.to_nat z).
+Proof. unfold py_index. intros. cbv zeta. replace (z <? 0) with false by lia. cbv iota. replace ((0 <=? z) && (z <? Z.of_nat k)) with true by lia. reflexivity. Qed.
+
+Theorem arrayGet_spec : forall h l xs n z v, hget h l = Some (CArr xs) -> integral n z -> 0 <= z < len xs ->
+  nth_error xs (Z.to_nat z) = Some v ->
+  lib (U "arrayGet") [VArr l; VNum n] h = (LOk v, h).
+Proof.
+  intros h l xs n z v Hl Hn Hz Hv. unfold len in Hz.
+  open_lib (U "arrayGet"). table_entry (U "arrayGet") k_arrayGet. validate_step. idx n z Hn.
+  replace (z <? 0) with false by lia. validate_step. unfold k_arrayGet. rewrite Hl, (index_guard_integral n z _ Hn).
+  replace (Z.of_nat (length xs) <=? z) with false by lia. rewrite py_index_in_range, Hv by lia. reflexivity.
+Qed.
+
+Theorem arrayGet_out_of_range : forall h l xs n z, hget h l = Some (CArr xs) -> integral n z -> (z < 0 \/ len xs <= z) ->
+  lib (U "arrayGet") [VArr l; VNum n] h = (LArgsErr VNull, h).
+Proof.
+  intros h l xs n z Hl Hn Hz. unfold len in Hz.
+  open_lib (U "arrayGet"). table_entry (U "arrayGet") k_arrayGet. validate_step. idx n z Hn.
+  destruct (z <? 0) eqn:E; [reflexivity|]. validate_step. unfold k_arrayGet. rewrite Hl, (index_guard_integral n z _ Hn).
+  replace (Z.of_nat (length xs) <=? z) with true by lia. reflexivity.
+Qed.
+
+Theorem arraySet_spec : forall h l xs n z v, hget h l = Some (CArr xs) -> integral n z -> 0 <= z < len xs ->
+  lib (U "arraySet") [VArr l; VNum n; v] h = (LOk v, hset h l (CArr (set_nth xs (Z.to_nat z) v))).
+Proof.
+  intros h l xs n z v Hl Hn Hz. unfold len in Hz.
+  open_lib (U "arraySet"). table_entry (U "arraySet") k_arraySet. validate_step. idx n z Hn.
+  replace (z <? 0) with false by lia. validate_step. unfold k_arraySet. rewrite Hl, (index_guard_integral n z _ Hn).
+  replace (Z.of_nat (length xs) <=? z) with false by lia. rewrite py_index_in_range by lia. reflexivity.
+Qed.
+
+Theorem arraySet_out_of_range : forall h l xs n z v, hget h l = Some (CArr xs) -> integral n z -> (z < 0 \/ len xs <= z) ->
+  lib (U "arraySet") [VArr l; VNum n; v] h = (LArgsErr VNull, h).
+Proof.
+  intros h l xs n z v Hl Hn Hz. unfold len in Hz.
+  open_lib (U "arraySet"). table_entry (U "arraySet") k_arraySet. validate_step. idx n z Hn.
+  destruct (z <? 0) eqn:E; [reflexivity|]. validate_step. unfold k_arraySet. rewrite Hl, (index_guard_integral n z _ Hn).
+  replace (Z.of_nat (length xs) <=? z) with true by lia. reflexivity.
+Qed.
+
+Theorem arrayDelete_spec : forall h l xs n z, hget h l = Some (CArr xs) -> integral n z -> 0 <= z < len xs ->
+  lib (U "arrayDelete") [VArr l; VNum n] h = (LOk VNull, hset h l (CArr (remove_nth xs (Z.to_nat z)))).
+Proof.
+  intros h l xs n z Hl Hn Hz. unfold len in Hz.
+  open_lib (U "arrayDelete"). table_entry (U "arrayDelete") k_arrayDelete. validate_step. idx n z Hn.
+  replace (z <? 0) with false by lia. validate_step. unfold k_arrayDelete. rewrite Hl, (index_guard_integral n z _ Hn).
+  replace (Z.of_nat (length xs) <=? z) with false by lia. rewrite py_index_in_range by lia. reflexivity.
+Qed.
+
+Theorem arrayPush_spec : forall h l xs vs, hget h l = Some (CArr xs) ->
+  lib (U "arrayPush") (VArr l :: vs) h = (LOk (VArr l), hset h l (CArr (xs ++ vs))).
+Proof.
+  intros h l xs vs Hl.
+  open_lib (U "arrayPush"). table_entry (U "arrayPush") k_arrayPush. validate_step.
+  destruct vs; validate_step; unfold k_arrayPush; rewrite Hl; reflexivity.
+Qed.
+
+Theorem arrayPop_spec : forall h l ys v, hget h l = Some (CArr (ys ++ [v])) ->
+  lib (U "arrayPop") [VArr l] h = (LOk v, hset h l (CArr ys)).
+Proof.
+  intros h l ys v Hl.
+  open_lib (U "arrayPop"). table_entry (U "arrayPop") k_arrayPop. validate_step. unfold k_arrayPop. rewrite Hl.
+  rewrite rev_app_distr. simpl. rewrite removelast_last. reflexivity.
+Qed.
+
+Theorem arrayPop_empty : forall h l, hget h l = Some (CArr []) -> lib (U "arrayPop") [VArr l] h = (LArgsErr VNull, h).
+Proof. intros h l Hl. open_lib (U "arrayPop"). table_entry (U "arrayPop") k_arrayPop. validate_step. unfold k_arrayPop. rewrite Hl. reflexivity. Qed.
+
+Theorem arrayShift_spec : forall h l v xs, hget h l = Some (CArr (v :: xs)) ->
+  lib (U "arrayShift") [VArr l] h = (LOk v, hset h l (CArr xs)).
+Proof. intros h l v xs Hl. open_lib (U "arrayShift"). table_entry (U "arrayShift") k_arrayShift. validate_step. unfold k_arrayShift. rewrite Hl. reflexivity. Qed.
+
+(* arrayExtend(a, b), b possibly the same array as a *)
+Theorem arrayExtend_spec : forall h l l2 xs ys, hget h l = Some (CArr xs) -> hget h l2 = Some (CArr ys) ->
+  lib (U "arrayExtend") [VArr l; VArr l2] h = (LOk (VArr l), hset h l (CArr (xs ++ ys))).
+Proof.
+  intros h l l2 xs ys Hl Hl2. open_lib (U "arrayExtend"). table_entry (U "arrayExtend") k_arrayExtend. validate_step.
+  unfold k_arrayExtend. rewrite Hl, Hl2. reflexivity.
+Qed.
+
+Theorem arrayLength_spec : forall h l xs, hget h l = Some (CArr xs) ->
+  lib (U "arrayLength") [VArr l] h = (LOk (VNum (NInt (len xs))), h).
+Proof. intros h l xs Hl. open_lib (U "arrayLength"). table_entry (U "arrayLength") k_arrayLength. validate_step. unfold k_arrayLength. rewrite Hl. reflexivity. Qed.
+
+Theorem arrayCopy_spec : forall h l xs, hget h l = Some (CArr xs) ->
+  lib (U "arrayCopy") [VArr l] h = (LOk (VArr (length h)), h ++ [CArr xs]).
+Proof. intros h l xs Hl. open_lib (U "arrayCopy"). table_entry (U "arrayCopy") k_arrayCopy. validate_step. unfold k_arrayCopy. rewrite Hl. reflexivity. Qed.
+
+Lemma py_bound_in_range : forall k z, 0 <= z <= Z.of_nat k -> py_bound k z = Z.to_nat z.
+Proof. unfold py_bound. intros. cbv zeta. replace (z <? 0) with false by lia. cbv iota. replace (z <? 0) with false by lia.
+  replace (Z.of_nat k <? z) with false by lia. reflexivity. Qed.
+
+Theorem arraySlice_spec : forall h l xs n1 s n2 e, hget h l = Some (CArr xs) -> integral n1 s -> integral n2 e ->
+  0 <= s <= len xs -> 0 <= e <= len xs ->
+  lib (U "arraySlice") [VArr l; VNum n1; VNum n2] h
+  = (LOk (VArr (length h)), h ++ [CArr (skipn (Z.to_nat s) (firstn (Z.to_nat e) xs))]).
+Proof.
+  intros h l xs n1 s n2 e Hl H1 H2 Hs He. unfold len in *.
+  open_lib (U "arraySlice"). table_entry (U "arraySlice") k_arraySlice. validate_step. idx n1 s H1.
+  replace (s <? 0) with false by lia. validate_step. idx n2 e H2. replace (e <? 0) with false by lia. validate_step.
+  unfold k_arraySlice. rewrite Hl. cbn [as_num]. unfold len.
+  rewrite (num_gt_integral _ _ _ H1), (num_gt_integral _ _ _ H2).
+  replace (Z.of_nat (length xs) <? s) with false by lia. replace (Z.of_nat (length xs) <? e) with false by lia.
+  destruct H1 as [-> _]. destruct H2 as [-> _]. unfold py_slice, halloc. rewrite !py_bound_in_range by lia. reflexivity.
+Qed.
+
+(* a slice never shares with its source, even when it covers the whole array (start and end omitted) *)
+Theorem arraySlice_whole : forall h l xs, hget h l = Some (CArr xs) ->
+  lib (U "arraySlice") [VArr l] h = (LOk (VArr (length h)), h ++ [CArr xs]).
+Proof.
+  intros h l xs Hl. open_lib (U "arraySlice"). table_entry (U "arraySlice") k_arraySlice. validate_step.
+  unfold k_arraySlice. rewrite Hl. cbn [as_num vint].
+  rewrite (num_gt_integral _ _ _ (integral_int 0)), (num_gt_integral _ _ _ (integral_int (len xs))). unfold len.
+  replace (Z.of_nat (length xs) <? 0) with false by lia. rewrite Z.ltb_irrefl. cbn [py_int].
+  unfold py_slice, halloc. rewrite !py_bound_in_range by lia. rewrite Nat2Z.id, firstn_all. reflexivity.
+Qed.
+
+(* ---- objects: association lists with distinct keys are finite maps -------------------------------------------------- *)
+Lemma assoc_dict_set_same : forall kv k v, assoc k (dict_set kv k v) = Some v.
+Proof.
+  induction kv as [|[k' v'] kv IH]; intros k v; simpl; [rewrite str_eqb_refl; reflexivity|].
+  destruct (str_eqb k k') eqn:E; simpl; rewrite E; auto.
+Qed.
+Lemma assoc_dict_set_other : forall kv k k' v, k' <> k -> assoc k' (dict_set kv k v) = assoc k' kv.
+Proof.
+  induction kv as [|[k0 v0] kv IH]; intros k k' v N; simpl.
+  - apply str_eqb_neq in N. rewrite N. reflexivity.
+  - destruct (str_eqb k k0) eqn:E; simpl.
+    + apply str_eqb_eq in E. subst. apply str_eqb_neq in N. rewrite N. reflexivity.
+    + destruct (str_eqb k' k0); auto.
+Qed.
+Lemma in_dict_set_keys : forall kv k v x, In x (map fst (dict_set kv k v)) -> x = k \/ In x (map fst kv).
+Proof.
+  induction kv as [|[k0 v0] kv IH]; intros k v x H; simpl in *.
+  - destruct H; auto.
+  - destruct (str_eqb k k0) eqn:E; simpl in *; [tauto|]. destruct H as [H|H]; auto. apply IH in H. tauto.
+Qed.
+Lemma dict_set_nodup : forall kv k v, NoDup (map fst kv) -> NoDup (map fst (dict_set kv k v)).
+Proof.
+  induction kv as [|[k0 v0] kv IH]; intros k v H; simpl.
+  - constructor; [intros []|constructor].
+  - destruct (str_eqb k k0) eqn:E; simpl; [exact H|]. inv H. constructor; auto.
+    intro I. apply in_dict_set_keys in I. destruct I as [->|I]; auto. rewrite str_eqb_refl in E. discriminate.
+Qed.
+Lemma in_dict_del_keys : forall kv k x, In x (map fst (dict_del kv k)) -> In x (map fst kv).
+Proof.
+  induction kv as [|[k0 v0] kv IH]; intros k x H; simpl in *; auto.
+  destruct (str_eqb k k0); simpl in *; auto. destruct H; eauto.
+Qed.
+Lemma dict_del_nodup : forall kv k, NoDup (map fst kv) -> NoDup (map fst (dict_del kv k)).
+Proof.
+  induction kv as [|[k0 v0] kv IH]; intros k H; simpl; auto.
+  inv H. destruct (str_eqb k k0); simpl; auto. constructor; auto. intro I. apply in_dict_del_keys in I. auto.
+Qed.
+Lemma assoc_not_in : forall {A} (kv : list (str * A)) k, ~ In k (map fst kv) -> assoc k kv = None.
+Proof.
+  induction kv as [|[k0 v0] kv IH]; intros k H; simpl in *; auto.
+  destruct (str_eqb k k0) eqn:E; [apply str_eqb_eq in E; subst; tauto|]. apply IH. tauto.
+Qed.
+Lemma assoc_dict_del_same : forall kv k, NoDup (map fst kv) -> assoc k (dict_del kv k) = None.
+Proof.
+  induction kv as [|[k0 v0] kv IH]; intros k H; simpl; auto. inv H.
+  destruct (str_eqb k k0) eqn:E; simpl.
+  - apply str_eqb_eq in E. subst. apply assoc_not_in. auto.
+  - rewrite E. auto.
+Qed.
+Lemma assoc_dict_del_other : forall kv k k', k' <> k -> assoc k' (dict_del kv k) = assoc k' kv.
+Proof.
+  induction kv as [|[k0 v0] kv IH]; intros k k' N; simpl; auto.
+  destruct (str_eqb k k0) eqn:E; simpl.
+  - apply str_eqb_eq in E. subst. apply str_eqb_neq in N. rewrite N. reflexivity.
+  - destruct (str_eqb k' k0); auto.
+Qed.
+
+Theorem objectGet_spec : forall h l kv k d, hget h l = Some (CObj kv) ->
+  lib (U "objectGet") [VObj l; VStr k; d] h = (LOk (match assoc k kv with Some v => v | None => d end), h).
+Proof. intros h l kv k d Hl. open_lib (U "objectGet"). table_entry (U "objectGet") k_objectGet. validate_step. unfold k_objectGet. rewrite Hl. reflexivity. Qed.
+
+(* a key that is present with the value null is NOT replaced by the default *)
+Theorem objectGet_present_null : forall h l kv k d, hget h l = Some (CObj kv) -> assoc k kv = Some VNull ->
+  lib (U "objectGet") [VObj l; VStr k; d] h = (LOk VNull, h).
+Proof. intros. rewrite (objectGet_spec _ _ _ _ _ H), H0. reflexivity. Qed.
+
+Theorem objectSet_spec : forall h l kv k v, hget h l = Some (CObj kv) ->
+  lib (U "objectSet") [VObj l; VStr k; v] h = (LOk v, hset h l (CObj (dict_set kv k v))).
+Proof. intros h l kv k v Hl. open_lib (U "objectSet"). table_entry (U "objectSet") k_objectSet. validate_step. unfold k_objectSet. rewrite Hl. reflexivity. Qed.
+
+Theorem objectHas_spec : forall h l kv k, hget h l = Some (CObj kv) ->
+  lib (U "objectHas") [VObj l; VStr k] h = (LOk (VBool (match assoc k kv with Some _ => true | None => false end)), h).
+Proof. intros h l kv k Hl. open_lib (U "objectHas"). table_entry (U "objectHas") k_objectHas. validate_step. unfold k_objectHas. rewrite Hl. reflexivity. Qed.
+
+Theorem objectDelete_spec : forall h l kv k, hget h l = Some (CObj kv) ->
+  lib (U "objectDelete") [VObj l; VStr k] h = (LOk VNull, hset h l (CObj (dict_del kv k))).
+Proof. intros h l kv k Hl. open_lib (U "objectDelete"). table_entry (U "objectDelete") k_objectDelete. validate_step. unfold k_objectDelete. rewrite Hl. reflexivity. Qed.
+
+Theorem objectKeys_spec : forall h l kv, hget h l = Some (CObj kv) ->
+  lib (U "objectKeys") [VObj l] h = (LOk (VArr (length h)), h ++ [CArr (map (fun p => VStr (fst p)) kv)]).
+Proof. intros h l kv Hl. open_lib (U "objectKeys"). table_entry (U "objectKeys") k_objectKeys. validate_step. unfold k_objectKeys. rewrite Hl. reflexivity. Qed.
+
+Theorem objectCopy_spec : forall h l kv, hget h l = Some (CObj kv) ->
+  lib (U "objectCopy") [VObj l] h = (LOk (VObj (length h)), h ++ [CObj kv]).
+Proof. intros h l kv Hl. open_lib (U "objectCopy"). table_entry (U "objectCopy") k_objectCopy. validate_step. unfold k_objectCopy. rewrite Hl. reflexivity. Qed.
+
+Theorem objectAssign_spec : forall h l l2 kv kv2, hget h l = Some (CObj kv) -> hget h l2 = Some (CObj kv2) ->
+  lib (U "objectAssign") [VObj l; VObj l2] h = (LOk (VObj l), hset h l (CObj (dict_update kv kv2))).
+Proof.
+  intros h l l2 kv kv2 Hl Hl2. open_lib (U "objectAssign"). table_entry (U "objectAssign") k_objectAssign. validate_step.
+  unfold k_objectAssign. rewrite Hl, Hl2. reflexivity.
+Qed.
+
+(* wrong-typed first argument (every type, booleans included): the documented failure value, nothing changes *)
+Theorem arrayGet_wrong_type : forall h v rest, (forall l, v <> VArr l) ->
+  lib (U "arrayGet") (v :: rest) h = (LArgsErr VNull, h).
+Proof.
+  intros h v rest N. open_lib (U "arrayGet"). table_entry (U "arrayGet") k_arrayGet. validate_step.
+  destruct v; try reflexivity. exfalso. eapply N. reflexivity.
+Qed.
+Theorem arrayGet_wrong_index_type : forall h l v, (forall n, v <> VNum n) ->
+  lib (U "arrayGet") [VArr l; v] h = (LArgsErr VNull, h).
+Proof.
+  intros h l v N. open_lib (U "arrayGet"). table_entry (U "arrayGet") k_arrayGet. validate_step.
+  destruct v; try reflexivity. exfalso. eapply N. reflexivity.
+Qed.
+Theorem arrayLength_wrong_type : forall h v rest, (forall l, v <> VArr l) ->
+  lib (U "arrayLength") (v :: rest) h = (LArgsErr (VNum (NInt 0)), h).
+Proof.
+  intros h v rest N. open_lib (U "arrayLength"). table_entry (U "arrayLength") k_arrayLength. validate_step.
+  destruct v; try reflexivity. exfalso. eapply N. reflexivity.
+Qed.
